@@ -1,12 +1,14 @@
 #!/bin/bash
-# usage: r3eval.sh ID...   confirm (in worktree) and run mutants (in /repo) for round-3 seeds
+# usage: tools/seeded_round_eval.sh <round> ID...   confirm (in the sub-agent's worktree) and run the property's
+# quick check against each of the round's seeded changes (applied to /repo, reverted afterwards)
+R="$1"; shift
 cd /verif
 for id in "$@"; do
   for n in 1 2; do
-    [ -f /tmp/seeded-out3/$id/patch$n.diff ] || { echo "$id s$n: no patch"; continue; }
-    SEED_ROUND=3 tools/seeded_confirm_only.sh $id $n
-    tools/mutant.sh /tmp/seeded-out3/$id/patch$n.diff $id > /tmp/seeded-out3/mut-$id-$n.log 2>&1
-    echo "   $id s$n :: $(grep -E '^== ' /tmp/seeded-out3/mut-$id-$n.log | cut -c1-300)"
+    [ -f /tmp/seeded-out$R/$id/patch$n.diff ] || { echo "$id s$n: no patch"; continue; }
+    SEED_ROUND=$R tools/seeded_confirm_only.sh $id $n
+    tools/mutant.sh /tmp/seeded-out$R/$id/patch$n.diff $id > /tmp/seeded-out$R/mut-$id-$n.log 2>&1
+    echo "   $id s$n :: $(grep -E '^== |does not apply' /tmp/seeded-out$R/mut-$id-$n.log | cut -c1-300)"
   done
 done
 git -C /repo status --short
